@@ -19,5 +19,5 @@ print('mutated %s (%d matches, first replaced)' % (p, n))
 PY
 cd "$(dirname "$0")/.."
 for id in ${ids//,/ }; do
-  VERIF_REPO="$scratch" ./check "$id" --tier "$tier" | grep -E "^(VIOLATION|INCONCLUSIVE|KNOWN|C[0-9]+ tier)" | cut -c1-200 || true
+  VERIF_REPO="$scratch" ./check "$id" --tier "$tier" | grep -E "^(VIOLATION|INCONCLUSIVE|KNOWN|C[0-9]+ tier)" | cut -c1-200 | head -8 || true
 done
